@@ -57,15 +57,15 @@ type G struct {
 	why    string  // informational
 	hard   bool
 
-	ctr      uint64 // soft yield counter
-	loopCtr  uint64 // map iteration counter
-	uuidCtr  uint64
-	selCtr   uint64
-	spawnCtr map[string]int
-	kids     map[string]int // fallback ordinal for children discovered through stacks
-	unmanaged bool
-	atomic   int // >0: yields are skipped (harness instrumentation running on this goroutine)
-	steps    int
+	ctr             uint64 // soft yield counter
+	loopCtr         uint64 // map iteration counter
+	uuidCtr         uint64
+	selCtr          uint64
+	spawnCtr        map[string]int
+	kids            map[string]int // fallback ordinal for children discovered through stacks
+	unmanaged       bool
+	atomic          int // >0: yields are skipped (harness instrumentation running on this goroutine)
+	steps           int
 	sinceParkYields int // soft yields passed without parking since the last park
 }
 
@@ -86,19 +86,19 @@ type Action struct {
 
 // Stats are reach counters.
 type Stats struct {
-	Steps        int
-	ChoicePoints int // steps with >= 2 enabled actions
-	Runs         int
-	Delivers     int
-	TimeSteps    int
-	SoftParks    int
-	HardParks    int
-	LockWaits    int // a goroutine had to queue for a lock
-	LockContend  int // a choice point at which >= 2 goroutines were waiting for the same lock
-	MapPerms     int
+	Steps         int
+	ChoicePoints  int // steps with >= 2 enabled actions
+	Runs          int
+	Delivers      int
+	TimeSteps     int
+	SoftParks     int
+	HardParks     int
+	LockWaits     int // a goroutine had to queue for a lock
+	LockContend   int // a choice point at which >= 2 goroutines were waiting for the same lock
+	MapPerms      int
 	UnknownParent int
-	PtrRace      int
-	Goroutines   int
+	PtrRace       int
+	Goroutines    int
 }
 
 // Sim is one simulated execution.
@@ -116,7 +116,7 @@ type Sim struct {
 	// LastWasTick: the goroutine released last had been parked by the tick (it
 	// had run TickEvery soft yields without blocking).
 	LastWasTick bool
-	dead    atomic.Bool
+	dead        atomic.Bool
 
 	// Extra is called every step for scenario-level actions (ops, faults,
 	// explicit time steps). May be nil.
@@ -128,7 +128,7 @@ type Sim struct {
 	sig   uint64 // running signature of (kind, actor) at choice points
 	Start time.Time
 
-	ptrSeq map[uintptr]int
+	ptrSeq  map[uintptr]int
 	ptrNext int
 
 	tryDepth int
